@@ -195,8 +195,12 @@ Fixpoint mon_fail_index (n : nat) (m : Z) (s : mon) (i : Z) (tr : list (cop * bh
       | 13 ro k cls_1..cls_k flag_1..flag_k OBS     like 10 but through Swarm.filterKnownUndialables
                                                      (one request per dial, whatever the number of addresses)
       | 14 ro cls succ OBS                           Swarm.dialAddr whose transport dial ended with success = succ
-                                                     (recorded like 11)
+                                                     (recorded like 11); succ 2 / 3 = failure / success of a dial
+                                                     during which a concurrent dial to the peer won (context
+                                                     cancelled with errConcurrentDialSuccessful): recorded all the same
       | 15 ro cls OBS                                Swarm.dialAddr that returned before any transport dial
+      | 16 ro cls flag OBS                           Swarm.CanDial for one address: one request, like 13 with
+                                                     a single address; flag = the answer
    The two counters are shared by a read-write and a read-only detector, as in a
    real node (main swarm and the AutoNAT dialer swarm).
    cls = pub + 2*udp + 4*ip6 ; flag 1 = valid, 0 = black-holed;
@@ -258,9 +262,24 @@ Fixpoint decode_dtrace (l : list Z) (fuel : nat) : option (list (top * dobs)) :=
               match decode_obs r1 with
               | Some (u, v, r2) =>
                   match decode_dtrace r2 f with
-                  | Some t => Some ((TDet (zbool ro) (DRecord (addr_of_cls 0 k) (zbool s)), DO [] u v) :: t)
+                  | Some t => Some ((TDet (zbool ro) (DRecord (addr_of_cls 0 k) ((s =? 1) || (s =? 3))), DO [] u v) :: t)
                   | None => None
                   end
+              | None => None
+              end
+          | _ => None
+          end
+        else if code =? 16 then
+          match r with
+          | fl :: r1 =>
+              match decode_obs r1 with
+              | Some (u, v, r2) =>
+                  if (fl =? 0) || (fl =? 1) then
+                    match decode_dtrace r2 f with
+                    | Some t => Some ((TDet (zbool ro) (DFilter [addr_of_cls 0 k]), DO [zbool fl] u v) :: t)
+                    | None => None
+                    end
+                  else None
               | None => None
               end
           | _ => None
